@@ -140,7 +140,13 @@ namespace vh
                     kv.flat(i) = s["Ka"][i].as_double();
             double ks = num("Ks", 1.0);
             // elevation: the elevation returned by the last update (the usual coupling) or the input
-            const xt::xarray<double>& elev = s.get_str("elev", "out") == "in" ? h.z : *h.out;
+            // or an explicit integer field (the eroder takes the elevation separately from the graph)
+            xt::xarray<double> hgiven = grid_array<G, double>(*grid, 0.0);
+            if (s.has("h"))
+                for (size_t i = 0; i < n; ++i)
+                    hgiven.flat(i) = s["h"][i].as_double();
+            const xt::xarray<double>& elev
+                = s.has("h") ? hgiven : (s.get_str("elev", "out") == "in" ? h.z : *h.out);
             // drainage area: accumulate(1) or explicit integers
             xt::xarray<double> area = s.has("A") ? grid_array<G, double>(*grid, 0.0) : h.fg->accumulate(1.0);
             if (s.has("A"))
@@ -165,21 +171,47 @@ namespace vh
             {
                 note("spl erode");
                 const auto& e = er->erode(elev, area, dt);
-                std::vector<double> hv(n), ev(n), hn(n);
+                std::vector<double> hv(n), ev(n), hn(n), hnu(n);
                 std::vector<long long> ez(n), eq(n), ecls(n), hi(n), hx(n);
                 for (size_t i = 0; i < n; ++i)
                 {
                     hv[i] = elev.flat(i);
                     ev[i] = e.flat(i);
                     hn[i] = hv[i] - ev[i];
+                    // upper enclosure of the new elevation: the erosion is returned rounded at the
+                    // magnitude of the node's own elevation, so h - e is only known up to that ulp
+                    double mag = std::max(std::fabs(hv[i]), std::fabs(ev[i]));
+                    double ulp = std::nextafter(mag, std::numeric_limits<double>::infinity()) - mag;
+                    hnu[i] = hn[i] + 2 * ulp;
                     ez[i] = same_bits(ev[i], 0.0) ? 1 : 0;
                     eq[i] = qfix(ev[i], 20);
                     ecls[i] = dclass(ev[i]);
                     hx[i] = (std::fabs(hv[i]) < 2.0e9 && hv[i] == std::floor(hv[i])) ? 1 : 0;
                     hi[i] = hx[i] ? static_cast<long long>(hv[i]) : 0;
                 }
-                o.raw("rh", rk.refs(hv)).raw("re", rk.refs(ev)).raw("rhn", rk.refs(hn));
+                o.raw("rh", rk.refs(hv)).raw("re", rk.refs(ev)).raw("rhn", rk.refs(hn)).raw("rhnu", rk.refs(hnu));
                 o.raw("rzero", rk.ref(0.0));
+                // nodes whose erosion is exactly what the limiter would produce (flooded level +
+                // the smallest normal double); flooded = lowest post-erosion elevation of the receivers
+                std::vector<long long> lim(n, 0);
+                {
+                    const auto& im = h.fg->impl();
+                    for (size_t i = 0; i < n; ++i)
+                    {
+                        size_t rc = im.receivers_count()(i);
+                        if (rc == 1 && im.receivers()(i, 0) == i)
+                            continue;
+                        double fl = std::numeric_limits<double>::max();
+                        for (size_t r = 0; r < rc; ++r)
+                        {
+                            size_t j = im.receivers()(i, r);
+                            fl = std::min(fl, elev.flat(j) - e.flat(j));
+                        }
+                        double cand = hv[i] - (fl + std::numeric_limits<double>::min());
+                        lim[i] = (hv[i] > fl && same_bits(cand, ev[i])) ? 1 : 0;
+                    }
+                }
+                o.ints("lim", lim);
                 o.ints("ez", ez).ints("eq", eq).ints("ecls", ecls).ints("hi", hi).ints("hx", hx);
                 o.num("ncorr", static_cast<long long>(er->n_corr()));
                 if (s.has("expect"))
